@@ -203,7 +203,7 @@ func r105(c *Ctx, r *R) {
 					recvOK = true
 				}
 				okBefore = recvOK && paramIndex(e, a[1]) == 1
-				nz := guardedBy(lf.Block, func(g Guard) bool { return gCall(g, false, "(time.Time).IsZero") })
+				nz := lf.GuardedBy(func(g Guard) bool { return gCall(g, false, "(time.Time).IsZero") })
 				r.Check(nz, "expiredAt:zero-never-expires", lf.Pos, "an unset expiry never expires", "ExpiredAt evaluates Before() for the zero time: every pin without expiry counts as expired and is unpinned")
 			}
 		}
@@ -225,7 +225,7 @@ func r106(c *Ctx, r *R) {
 			if k != nil && boolVal(k) {
 				continue
 			}
-			ok := guardedBy(lf.Block, func(g Guard) bool {
+			ok := lf.GuardedBy(func(g Guard) bool {
 				bo, isB := g.Cond.(*ssa.BinOp)
 				if !isB {
 					return false
